@@ -25,7 +25,9 @@ are equal (for `window`: equal value and — when a significant trend was remove
 
 Discontinuity guard: the driver flags `half` (round(n·P) at an exact half), `isclose` (bounded transfer at the
 `np.isclose` tolerance), `thr` (a computed value on a threshold), `ctie` (equal computed values from different inputs);
-the Spy flags `iecdf` (a discrete `iecdf` method evaluated at a jump).  A flagged case whose outputs differ is
+the Spy flags `iecdf` (a discrete `iecdf` method evaluated at a jump) and `ecdftie` (`ecdf(method="linear_interpolation")`
+evaluated at a duplicated sample value: the interpolant jumps there and which side `np.interp` returns depends on
+the rounding of `np.quantile`'s knots — the exact semantics, which the model has, is the right-most knot).  A flagged case whose outputs differ is
 accepted and counted in `res.extra["ties_accepted"]`.
 """
 import collections
@@ -86,6 +88,11 @@ CONFIGS = {
     # upper bound + threshold only
     "upper_add": dict(kind="upper", kw=dict(trend_preservation_method="additive", nonparametric_qm=False, detrending=False,
                                              upper_bound=10.0, upper_threshold=9.875, **_T)),
+    # step 2: imputation of missing values (prsnratio like)
+    "prsn_impute": dict(kind="unit", missing=True, kw=dict(trend_preservation_method="bounded", nonparametric_qm=True, detrending=False,
+                                                            impute_missing_values=True, **_SKEW)),
+    "prsn_impute_param": dict(kind="unit", missing=True, kw=dict(trend_preservation_method="bounded", nonparametric_qm=False, detrending=False,
+                                                                  impute_missing_values=True, iecdf_method="hazen", **_SKEW, **_T)),
     # event likelihood adjustment (logit / expit / log(10) oracles)
     "tas_ela": dict(kind="unbounded", kw=dict(trend_preservation_method="additive", nonparametric_qm=False, detrending=False,
                                                event_likelihood_adjustment=True, **_T)),
@@ -135,6 +142,12 @@ def cfg_token(deb):
 
 def rl(x):
     return C.rlist([float(v) for v in x])
+
+
+def rlo(x):
+    """list with missing values: `none` for nan / inf"""
+    x = [float(v) for v in x]
+    return ",".join(C.rat(v) if np.isfinite(v) else "none" for v in x) if x else "-"
 
 
 # ------------------------------------------------------------------ spying on the real run
@@ -236,6 +249,20 @@ class Spy:
                     spy.flags.add("iecdf")
             return o_iecdf(x, p, method=method, **kw)
 
+        o_ecdf = mu.ecdf
+
+        def ecdf(x, y, method="step_function"):
+            # linear_interpolation: the interpolant jumps at a duplicated sample value; which side np.interp returns there
+            # depends on the rounding of np.quantile's knots (k/(n-1)*(n-1) is k±ulp), not on the exact semantics
+            if method == "linear_interpolation":
+                xs = np.sort(np.asarray(x, dtype=float))
+                dup = xs[1:][xs[1:] == xs[:-1]]
+                if dup.size and np.isin(np.asarray(y, dtype=float), dup).any():
+                    spy.flags.add("ecdftie")
+            return o_ecdf(x, y, method=method)
+
+        self._patch(mu, "ecdf", ecdf)
+        self._patch(isi_mod, "ecdf", ecdf)
         self._patch(np.random, "uniform", uniform)
         self._patch(np.random, "random", random)
         self._patch(np, "cos", cos)
@@ -293,6 +320,21 @@ class Spy:
         for active in (deb.has_lower_bound and deb.has_lower_threshold, deb.has_upper_bound and deb.has_upper_threshold):
             for _ in range(3):
                 out.append(calls.pop(0)[2] if active and calls else np.array([]))
+        return out
+
+    def imputes(self, deb, series):
+        """the three step-2 draw lists: `np.random.random` is called for a series with at least two valid values,
+        and not at all after a series without any (ValueError)"""
+        calls = list(self.random)
+        out, dead = [], False
+        for x in series:
+            nvalid = int(np.isfinite(x).sum())
+            if deb.impute_missing_values and not dead and nvalid >= 2 and calls:
+                out.append(calls.pop(0))
+            else:
+                out.append(np.array([]))
+            if nvalid == 0:
+                dead = True
         return out
 
     def branch(self, deb, n):
@@ -384,6 +426,14 @@ def gen_case(rng, spec, tier):
         sizes = [sizes[0]] * 3
     ys = [_years(rng, n) for n in sizes]
     series = [gen_series(rng, spec["kind"], n, y) for n, y in zip(sizes, ys)]
+    if spec.get("missing"):
+        for x in series:
+            if rng.random() < 0.75:  # tie-free valid values (the order of imputed values depends on ties, see `ctie`)
+                x[:] = np.array(rng.sample(range(17, 1008), x.size)) / 1024
+            pm = rng.choice([0.0, 0.1, 0.2, 0.3, 0.5, 0.5, 0.7, 0.9, 0.9, 0.97, 1.0])
+            for i in range(x.size):
+                if rng.random() < pm:
+                    x[i] = rng.choice([np.nan, np.nan, np.inf, -np.inf])
     return series, ys
 
 
@@ -458,13 +508,33 @@ def build_case(deb, name, series, ys, seed, case):
             out, exc = deb._apply_on_window(obs.copy(), H.copy(), F.copy(), yO, yH, yF), None
         except Exception as ex:  # noqa: BLE001
             out, exc = None, type(ex).__name__
-    d = spy.draws(deb)
+    d = spy.draws(deb) + spy.imputes(deb, series)
     sigF = deb.detrending and deb.detrending_with_significance_test and (spy.sig + [False] * 3)[2]
-    line = (f"window {tok} {spy.sig_bits()}{spy.ks_bit()} {rl(obs)} {rl(H)} {rl(F)} {C.ilist(yO)} {C.ilist(yH)} {C.ilist(yF)} "
+    line = (f"window {tok} {spy.sig_bits()}{spy.ks_bit()} {rlo(obs)} {rlo(H)} {rlo(F)} {C.ilist(yO)} {C.ilist(yH)} {C.ilist(yF)} "
             + " ".join(rl(x) for x in d) + f" {rl(spy.cos_in)} {rl(spy.cos_out)} {_tables(spy)}")
     keys = [(float(v), int(y) if sigF else 0) for v, y in zip(F, yF)]
+    pyflags = set(spy.flags)
+    if deb.impute_missing_values and any(np.unique(x[np.isfinite(x)]).size != np.isfinite(x).sum() for x in series):
+        pyflags.add("ctie2")  # ranks of equal valid values decide where the imputed values go
     exps.append(Expect("window", line, case, out=out, exc=exc, keys=keys, nl=spy.n_lower, nu=spy.n_upper,
-                       branch=spy.branch(deb, F.size), pyflags=set(spy.flags), inputs=(obs, H, F)))
+                       branch=spy.branch(deb, F.size), pyflags=pyflags, inputs=(obs, H, F)))
+
+    # ---- step 2, one series at a time
+    if deb.impute_missing_values:
+        filled = []
+        for k, x in enumerate(series):
+            with Spy() as s2:
+                np.random.seed(seed + 2 + k)
+                try:
+                    r2, exc2 = deb._step2_impute_values(x.copy()), None
+                except Exception as ex:  # noqa: BLE001
+                    r2, exc2 = None, type(ex).__name__
+            u = s2.random[0] if s2.random else np.array([])
+            exps.append(Expect("step2", f"step2 {tok} {rlo(x)} {rl(u)}", case, out=r2, exc=exc2, pyflags=set(s2.flags), inputs=(x,)))
+            filled.append(r2)
+        if any(r is None for r in filled):
+            return exps
+        obs, H, F = filled
 
     # ---- stage by stage, each stage on the real output of the previous real stage
     try:
@@ -508,7 +578,7 @@ def compare(e, got, hist):
     """-> (status, detail); status in ok | tie | mismatch"""
     toks = got.split(" ")
     flags = set()
-    if toks[0] == "ok" and e.op in ("window", "step5", "step6") and toks[-1] != "-":
+    if toks[0] == "ok" and e.op in ("window", "step2", "step5", "step6") and toks[-1] != "-":
         flags |= set(toks[-1].split(","))
     flags |= getattr(e, "pyflags", set())
 
@@ -541,9 +611,9 @@ def compare(e, got, hist):
             return "ok", ""
         return verdict(False, f"{e.op}: impl {'raises ' + e.exc if e.exc else 'ok'}; model {got[:80]}")
     real = [float(v) for v in e.out]
-    if e.op == "step5":
+    if e.op in ("step5", "step2"):
         model = parse_rl(toks[1])
-        return verdict(close(model, real, scale_of(*e.inputs, real)), f"step5: {worst(model, real)}")
+        return verdict(close(model, real, scale_of(*e.inputs, real)), f"{e.op}: {worst(model, real)}")
     if e.op == "step6":
         nl, nu, br, pre, model = int(toks[1]), int(toks[2]), toks[3], int(toks[4]), parse_rl(toks[5])
     else:
